@@ -581,8 +581,11 @@ class Check:
             self.known_hits[entry["id"]] = entry["what"]
             print("KNOWN-FINDING: property=%s %s [%s]" % (self.prop, entry["what"], entry["id"]), flush=True)
 
-    def violation(self, what, replay, no_input=False):
-        if not no_input and any(b.startswith("translator: ") for b in self.broken_ties):
+    def violation(self, what, replay, no_input=False, independent=False):
+        """independent=True: the decision used only the implementation's output and an oracle that owes nothing to the regenerated
+        model (CPython, the property text re-read in Python, another output of the same run), so it stays a confirmed failing input
+        even when the translator could not regenerate this property's constants."""
+        if not no_input and not independent and any(b.startswith("translator: ") for b in self.broken_ties):
             # the constants/tables this property's model is regenerated from could not be read off the source: a disagreement
             # between the implementation and such a model is not a confirmed failing input (the rewrite may be harmless);
             # it goes into the replay of the no-failing-input-found report instead
